@@ -183,6 +183,23 @@ fn random_request(rng: &mut StdRng, nonce: u64, big: bool) -> Request<Bytes> {
         req.headers_mut()
             .insert("resp-len".into(), body_size(rng, big).to_string());
     }
+    if rng.gen_bool(0.12) {
+        // header names and values are arbitrary strings too: empty, long, not ASCII
+        let odd_v = match rng.gen_range(0..5) {
+            0 => String::new(),
+            1 => "v".repeat(rng.gen_range(1_000..70_000)),
+            2 => "\u{e9}\u{20ac}\u{1d11e}".repeat(rng.gen_range(1..200)),
+            3 => "\0\r\n\t\"\\".repeat(rng.gen_range(1..20)),
+            _ => " leading and trailing ".to_owned(),
+        };
+        let odd_k = match rng.gen_range(0..4) {
+            0 => "echo-".to_owned(),
+            1 => format!("echo-{}", "\u{e9}".repeat(rng.gen_range(1..40))),
+            2 => format!("echo-{}", "k".repeat(rng.gen_range(200..2_000))),
+            _ => "echo-with space:colon".to_owned(),
+        };
+        req.headers_mut().insert(odd_k, odd_v);
+    }
     req
 }
 
